@@ -810,6 +810,12 @@ Section WithHash.
     | s :: r => let '(w1, o) := run_step w s in o :: run w1 r
     end.
 
+  Fixpoint run_world (w : world) (ss : list step) : world :=
+    match ss with
+    | [] => w
+    | s :: r => run_world (fst (run_step w s)) r
+    end.
+
   (* a runtime with one registered worldline 0 (default head (0,0)) over the given base content *)
   Definition init_state (c : list (slot * value)) : state := map (fun sv => (fst sv, Some (snd sv))) c.
   Definition init_world (c : list (slot * value)) : world :=
@@ -832,6 +838,10 @@ Definition c_shell (t : lane) (sid pol : N) (front : pref) (tags plurals : list 
   fold_left (fun a r => a * 5 + snd (fst r) + snd r) imports
     (fold_left (fun a x => a * 7 + x) (tags ++ plurals) ((t * 64 + sid) * 256 + N.land pol 255 + snd (fst front) * 65536 + snd front))
   + 36028797018963968.
+
+Definition world_c (c : list (slot * value)) (ss : list step) : world :=
+  run_world c_root c_commit c_art c_plural c_shell (init_world c_root c) ss.
+Definition settle_c := settle c_root c_commit c_art c_plural c_shell.
 
 Definition run_c (c : list (slot * value)) (ss : list step) : list obs :=
   run c_root c_commit c_art c_plural c_shell (init_world c_root c) ss.
